@@ -53,6 +53,12 @@ mut("c03_skip_written", "src/blob/index/bptree/core.rs", "        if !self.heade
 mut("c03_maxid_ignores_failed", "src/storage/core.rs", "                        max_blob_id = max_blob_id.max(Some(file_name.id()));", "                        let _ = file_name;", ["C03"], "max id ignores files that failed to open")
 mut("c03_f5_revert", "src/blob/index/bptree/core.rs", "        if self.file.size() != expected_size {", "        if false && self.file.size() != expected_size {", ["C03"], "reverts fix F5")
 mut("c03_f6_revert", "src/storage/core.rs", "let max_blob_id = max_blob_id.max(Self::max_old_corrupted_blob_id(&self.inner.config).await);", "", ["C03", "C07"], "reverts fix F6")
+# ---- C06
+mut("c06_eof_not_bincode", "src/error.rs", "        if self.kind() == IOErrorKind::UnexpectedEof {\n            Error::bincode(", "        if false && self.kind() == IOErrorKind::UnexpectedEof {\n            Error::bincode(", ["C06"], "EOF no longer classified as corruption: init fails on a torn blob")
+mut("c06_validation_not_saved", "src/storage/core.rs", "                    !matches!(kind, ValidationErrorKind::BlobVersion)", "                    !matches!(kind, ValidationErrorKind::BlobVersion | ValidationErrorKind::RecordHeaderChecksum)", ["C06", "C07"], "record header checksum errors abort init instead of quarantining")
+mut("c06_no_fresh_active", "src/storage/core.rs", "            if blobs.is_empty() {\n                let next = self.inner.next_blob_name()?;", "            if false {\n                let next = self.inner.next_blob_name()?;", ["C06"], "no fresh active blob when everything was quarantined")
+mut("c06_index_written_first", "src/blob/index/bptree/core.rs", "        file.write_append_all(buf.freeze()).await?;\n        header.set_written(true);", "        header.set_written(true);\n        let mut buf = buf; { let mut h = BytesMut::with_capacity(128); serialize_into((&mut h).writer(), &header)?; buf[..h.len()].copy_from_slice(&h); }\n        file.write_append_all(buf.freeze()).await?;", ["C06", "C03"], "index body written with the written bit already set (no two-phase)")
+mut("c06_torn_tail_accepted", "src/blob/core.rs", "        if record_end > self.file.size() {", "        if false && record_end > self.file.size() {", ["C06"], "reverts fix: torn data of last record accepted")
 # ---- C07
 mut("c07_create_truncates", "src/io/unix/sync.rs", "File::from_file(path, |f| f.create(true).write(true).read(true)).await", "File::from_file(path, |f| f.create(true).truncate(true).write(true).read(true)).await", ["C07"], "create() truncates an existing file (only harmful when a blob path is re-created)")
 mut("c07_quarantine_copy_delete", "src/storage/core.rs", """        tokio::fs::rename(&path, &corrupted_path)
